@@ -93,9 +93,10 @@ pub struct SimTls {
     pub veto_fired: u64,
     /// (hid, args) of mixer helpers
     pub helper_log: Vec<(u8, [u64; 5])>,
-    pub probe_r1: Option<u64>,
-    pub probe_slot: Option<(u64, u64)>,
-    pub probe_stack: Option<u64>,
+    /// (value, tag of the calling program)
+    pub probe_r1: Option<(u64, u64)>,
+    pub probe_slot: Option<(u64, u64, u64)>,
+    pub probe_stack: Option<(u64, u64)>,
     pub calc_calls: u64,
 }
 
@@ -241,11 +242,11 @@ fn h_mix2(a: u64, b: u64, c: u64, d: u64, e: u64) -> u64 {
 fn h_mix3(a: u64, b: u64, c: u64, d: u64, e: u64) -> u64 {
     mixer(H_MIX3, [a, b, c, d, e])
 }
-fn h_probe_r1(a: u64, _b: u64, _c: u64, _d: u64, _e: u64) -> u64 {
-    tls(|t| t.probe_r1 = Some(a));
+fn h_probe_r1(a: u64, tag: u64, _c: u64, _d: u64, _e: u64) -> u64 {
+    tls(|t| t.probe_r1 = Some((a, tag)));
     0
 }
-fn h_probe_slot(r1: u64, doff: u64, eoff: u64, _d: u64, _e: u64) -> u64 {
+fn h_probe_slot(r1: u64, doff: u64, eoff: u64, tag: u64, _e: u64) -> u64 {
     // native reads of the two slots of the buffer the program was given
     let (d, e) = unsafe {
         (
@@ -253,12 +254,12 @@ fn h_probe_slot(r1: u64, doff: u64, eoff: u64, _d: u64, _e: u64) -> u64 {
             ((r1.wrapping_add(eoff)) as *const u64).read_unaligned(),
         )
     };
-    tls(|t| t.probe_slot = Some((d, e)));
+    tls(|t| t.probe_slot = Some((d, e, tag)));
     0
 }
-fn h_probe_stack(p: u64, _b: u64, _c: u64, _d: u64, _e: u64) -> u64 {
+fn h_probe_stack(p: u64, tag: u64, _c: u64, _d: u64, _e: u64) -> u64 {
     let v = unsafe { (p as *const u64).read_unaligned() };
-    tls(|t| t.probe_stack = Some(v));
+    tls(|t| t.probe_stack = Some((v, tag)));
     0
 }
 
